@@ -701,6 +701,13 @@ func (env *SpecEnv) evalCall(e *SExpr) *Value {
 			return &Value{K: VScalar, SpecKind: "mmap", T: m.Elem(), S: env.st.loadLeaf(mapClass(m)+"#val", SArray(ks, es), x.S)}
 		case "zeros":
 			return &Value{K: VScalar, SpecKind: "mmap", T: types.Typ[types.Int], S: ConstArray(SArray(SInt, SInt), mkInt(0))}
+		case "onceDone":
+			// onceDone(x.once): whether Do has already run on that sync.Once field
+			lv := env.specLV(e.Args[0])
+			if lv == nil {
+				specFail("onceDone needs a field of type sync.Once")
+			}
+			return scalar(env.st.loadLeaf(lv.prefix+"#once", SBool, lv.ref), tb)
 		case "ptr":
 			// ptr(r, "*T"): the integer reference r viewed as a pointer to T
 			x := arg(0)
@@ -923,6 +930,10 @@ func (env *SpecEnv) evalModLoc(e *SExpr) []modLoc {
 			specFail("modifies: %s is not a heap location", e)
 		}
 		var out []modLoc
+		if typeName(lv.T) == "sync.Once" {
+			noteClass(lv.prefix+"#once", SBool, false)
+			out = append(out, modLoc{class: lv.prefix + "#once", ref: lv.ref})
+		}
 		for _, l := range leavesOf(lv.T) {
 			srt := l.Sort
 			if lv.kind == lvElem {
